@@ -72,9 +72,9 @@ whole_ascii! {
     w_u32: u32, parse_u32, 9, 12, 12, 15;
     w_i32: i32, parse_i32, 9, 13, 12, 16;
     w_u64: u64, parse_u64, 8, 21, 11, 24;
-    w_i64: i64, parse_i64, 8, 21, 11, 24;
+    w_i64: i64, parse_i64, 8, 12, 11, 15;
     w_usize: usize, parse_usize, 8, 21, 11, 24;
-    w_isize: isize, parse_isize, 8, 21, 11, 24;
+    w_isize: isize, parse_isize, 8, 12, 11, 15;
     w_u128: u128, parse_u128, 6, 12, 9, 15;
     w_i128: i128, parse_i128, 6, 12, 9, 15;
 }
